@@ -9,10 +9,12 @@ Model of
   * pkg/converters/ingress/annotations: `validateAllowDeny`, `buildGlobalDynamic`
     (global.go), `ConfigValue.NamespacedName` (mapper.go) and the REFERENCE SITES: how each
     configuration key that accepts a resource name derives `(defaultNamespace, name)` from
-    `(namespace of the annotated object, value)` — ingress.go `addTLS`, host.go
-    `setAuthTLSConfig`, backend.go `buildBackendProtocol` (secure-crt-secret,
-    secure-verify-ca-secret), `buildBackendAuthHTTP` (auth-secret, with the userlist reuse),
-    `setAuthExternal` + ingress.go's pre-built auth backend (auth-url svc://).
+    `(namespace of the annotated object, value)` — ingress.go `addTLS`, gateway.go `readCertRef`,
+    host.go `setAuthTLSConfig`, backend.go `buildBackendProtocol` (secure-crt-secret,
+    secure-verify-ca-secret, through `ConfigValue.defaultNamespace`), `buildBackendAuthHTTP`
+    (auth-secret), `setAuthExternal` + ingress.go's pre-built auth backend (auth-url svc://).
+The definitions suffixed `Old` are the behaviour BEFORE the repairs c70e6fc, 05277b5, 6c4b527,
+bce3fec in /repo; they are kept only for the historical witnesses in Props/C09.lean.
 Strings are `List Char` so that every function is structurally recursive and `decide` can
 evaluate concrete witnesses.  Core-only.
 -/
@@ -185,19 +187,23 @@ def Site.getter : Site → Getter
   | .authURL => .svc
 
 /-- THE TABLE: `(defaultNamespace, name)` handed to the getter, from the namespace `src` of the
-annotated object and the raw value (`authURL`: the `[ns/]name` part of the URL).
-`none` = the site rejects the value before calling the getter. -/
-def siteArgs (s : Site) (src value : Str) : Option (Str × Str) :=
+annotated object and the raw value (`authURL`: the `[ns/]name` part of the URL).  Every site
+hands over the namespace of the annotated object and the value as written
+(secure-* keys: `cv.defaultNamespace()` = `cv.Source.Namespace`, then `cv.Value`). -/
+def siteArgs (_s : Site) (src value : Str) : Option (Str × Str) := some (src, value)
+
+/-- HISTORICAL (before c70e6fc): backend.go did `namespace, name, err := crt.NamespacedName()` and
+`GetTLSSecretPath(namespace, name, …)`: the TARGET namespace became the default namespace -/
+def siteArgsOld (s : Site) (src value : Str) : Option (Str × Str) :=
   match s with
-  | .tls => some (src, value)
-  | .gwCert => some (src, value)
-  | .authTLS => some (src, value)
-  | .authSecret => some (src, value)
-  | .authURL => some (src, value)
-  -- backend.go:812/850: `namespace, name, err := crt.NamespacedName()` then
-  -- `GetTLSSecretPath(namespace, name, …)`: the TARGET namespace becomes the default namespace
   | .secureCrt => namespacedName src value
   | .secureCA => namespacedName src value
+  | _ => some (src, value)
+
+def siteResolveOld (s : Site) (b : Bits) (src value : Str) : Res :=
+  match siteArgsOld s src value with
+  | none => .invalid
+  | some (dns, name) => getterResolve s.getter b dns name
 
 /-- what the site makes the cache read (ignoring the shortcuts below) -/
 def siteResolve (s : Site) (b : Bits) (src value : Str) : Res :=
@@ -205,11 +211,15 @@ def siteResolve (s : Site) (b : Bits) (src value : Str) : Res :=
   | none => .invalid
   | some (dns, name) => getterResolve s.getter b dns name
 
-/-- `converters.Sync` runs the Gateway converter BEFORE the ingress converter, and it is the
-ingress converter's `syncFull` that calls `UpdateGlobalConfig` → `buildGlobalDynamic`: Gateway
-sites see the permissions computed by the PREVIOUS reconciliation (`prev`), the ingress sites
-the ones of the current global ConfigMap (`cur`). -/
-def bitsSeenBy (s : Site) (prev cur : Bits) : Bits := if s = .gwCert then prev else cur
+/-- `converters.Sync` creates the ingress converter first, and `NewIngressConverter` calls
+`annotations.UpdateDynamicConfig` (→ `buildGlobalDynamic`) with the current global ConfigMap:
+every converter of a reconciliation — Gateway first, then ingress — sees the permissions of the
+CURRENT global config (`cur`), never the ones left by the previous reconciliation (`prev`). -/
+def bitsSeenBy (_s : Site) (_prev cur : Bits) : Bits := cur
+
+/-- HISTORICAL (before bce3fec): only the ingress converter's `syncFull` called `buildGlobalDynamic`,
+after the Gateway converter had run: Gateway sites saw the previous reconciliation's permissions -/
+def bitsSeenByOld (s : Site) (prev cur : Bits) : Bits := if s = .gwCert then prev else cur
 
 /-- state of the haproxy model the two shortcut sites look at -/
 structure Existing where
@@ -224,38 +234,60 @@ def Existing.none : Existing := ⟨fun _ _ => false, fun _ _ => false⟩
 def authSecretName (src value : Str) : Str := if value.contains '/' then value else src ++ ['/'] ++ value
 
 /-- What object a site ends up USING (its content reaches the configuration):
-  * auth-secret: `Userlists().Find(listName)` comes first — an existing userlist is reused
-    without calling the cache;
-  * auth-url svc: ingress.go pre-builds the auth backend through `GetService` (checked, only when
-    the annotation is on the Ingress: `fromIngress`), but `setAuthExternal` then takes whatever
-    `Backends().FindBackend(ns, name, port)` returns;
+  * auth-secret: `GetPasswdSecretContent` is always called first; an existing userlist of the
+    same name is then reused, built from the very same object;
+  * auth-url svc: `setAuthExternal` refuses a namespace other than the annotated object's unless
+    services are allowed, and only then takes what `Backends().FindBackend(ns, name, port)`
+    returns (a backend pre-built by ingress.go through the checked `GetService` when the annotation
+    is on the Ingress: `fromIngress`, or one created by any other ingress);
   * others: what the getter reads. -/
 def siteUses (s : Site) (b : Bits) (ex : Existing) (fromIngress : Bool) (src value : Str) : Res :=
   match s with
-  | .authSecret =>
-    match splitKey (authSecretName src value) with
-    | some (ns, n) => if ex.userlist ns n then .obj ns n else siteResolve s b src value
-    | none => siteResolve s b src value
   | .authURL =>
     match namespacedName src value with
     | none => .invalid
     | some (ns, n) =>
       -- "a globally configured auth-url is missing the namespace"
-      if ns = [] then .invalid else
-      let prebuilt := fromIngress && (match siteResolve s b src value with | .obj _ _ => true | _ => false)
-      if prebuilt || ex.backend ns n then .obj ns n
-      else (match siteResolve s b src value with | .obj _ _ => .invalid | r => r)
+      if ns = [] then .invalid
+      else if ns ≠ src ∧ b.svc = false then .denied
+      else
+        let prebuilt := fromIngress && (match siteResolve s b src value with | .obj _ _ => true | _ => false)
+        if prebuilt || ex.backend ns n then .obj ns n
+        else (match siteResolve s b src value with | .obj _ _ => .invalid | r => r)
   | _ => siteResolve s b src value
 
 /-- the object the cache is asked for while the site is evaluated (`none`: no getter call) -/
-def siteReads (s : Site) (b : Bits) (ex : Existing) (fromIngress : Bool) (src value : Str) : Option Res :=
+def siteReads (s : Site) (b : Bits) (_ex : Existing) (fromIngress : Bool) (src value : Str) : Option Res :=
+  match s with
+  | .authURL => if fromIngress then some (siteResolve s b src value) else none
+  | _ => some (siteResolve s b src value)
+
+/-- HISTORICAL (before 6c4b527 and 05277b5): `Userlists().Find(listName)` came before the cache,
+and `setAuthExternal` took whatever `FindBackend` returned -/
+def siteUsesOld (s : Site) (b : Bits) (ex : Existing) (fromIngress : Bool) (src value : Str) : Res :=
   match s with
   | .authSecret =>
     match splitKey (authSecretName src value) with
-    | some (ns, n) => if ex.userlist ns n then none else some (siteResolve s b src value)
-    | none => some (siteResolve s b src value)
-  | .authURL => if fromIngress then some (siteResolve s b src value) else none
-  | _ => some (siteResolve s b src value)
+    | some (ns, n) => if ex.userlist ns n then .obj ns n else siteResolveOld s b src value
+    | none => siteResolveOld s b src value
+  | .authURL =>
+    match namespacedName src value with
+    | none => .invalid
+    | some (ns, n) =>
+      if ns = [] then .invalid else
+      let prebuilt := fromIngress && (match siteResolveOld s b src value with | .obj _ _ => true | _ => false)
+      if prebuilt || ex.backend ns n then .obj ns n
+      else (match siteResolveOld s b src value with | .obj _ _ => .invalid | r => r)
+  | _ => siteResolveOld s b src value
+
+def siteReadsOld (s : Site) (b : Bits) (ex : Existing) (fromIngress : Bool) (src value : Str) : Option Res :=
+  match s with
+  | .authSecret =>
+    match splitKey (authSecretName src value) with
+    | some (ns, n) => if ex.userlist ns n then none else some (siteResolveOld s b src value)
+    | none => some (siteResolveOld s b src value)
+  | .authURL => if fromIngress then some (siteResolveOld s b src value) else none
+  | _ => some (siteResolveOld s b src value)
 
 /-- the namespace a result touches, if any -/
 def Res.ns? : Res → Option Str
@@ -278,6 +310,9 @@ def kindName : Kind → String
   | .svc => "service"
   | _ => "secret"
 
+/- `usedForeign` also covers a `file://` value that names the controller's own copy of another
+namespace's secret (labels suffixed `-file`): accepted as a KNOWN FINDING — `file://` is a
+documented feature of the annotation keys and a local path carries no namespace. -/
 def oracle (siteName : String) (k : Kind) (allowed readForeign usedForeign panicked : Bool) : Option String :=
   if panicked then some ("panic:" ++ siteName)
   else if !allowed && readForeign then some ("foreign-" ++ kindName k ++ "-read:" ++ siteName)
